@@ -21,7 +21,9 @@ TEMPLATE_DIR = {
 
 
 def scratch_root() -> Path:
-    base = Path(os.environ.get("VERIF_SCRATCH", tempfile.gettempdir())) / f"verif-{os.getpid()}"
+    run = os.environ.get("VERIF_RUN_ID")
+    base = Path(os.environ.get("VERIF_SCRATCH", tempfile.gettempdir()))
+    base = (base / f"verif-{run}" / str(os.getpid())) if run else (base / f"verif-{os.getpid()}")
     base.mkdir(parents=True, exist_ok=True)
     return base
 
